@@ -175,3 +175,16 @@ claim("C02",
       "Does not decide that the 100-component integral rotation and the Slater-Koster overlap rotation are orthogonal "
       "representations (numerical). Trusted: dependence lattice, axial symmetry of local-frame integrals.",
       "DESIGN.md section 4, C02")
+
+claim("C18",
+      "guard table decided by three-valued CFG exploration under the violating valuation (no path to the normal exit or to a result producer), "
+      "predicate checks on the guard operands (comparison direction, electron count algebra, occupation range, routine table), call-order dominance in the callers",
+      "Decides, for each of the 33 documented preconditions / unsupported combinations in the table, that every control-flow path a "
+      "violating request can take through the guarding function ends in a raise before the function returns or calls a result "
+      "producer, however the guard is spelled; that the guard operands are the documented predicates (non-increasing adjacent "
+      "comparison, valence electrons minus charge, N/2 +- (mult-1)/2, 0 <= nocc <= norb, the jcall table); and that check_input runs "
+      "before parsing and the solver factory before the first SCF iteration.",
+      "Does not decide the second sentence of C18 (finite results or a flag for every accepted input): that quantifies over floating point "
+      "values of exp/sqrt/division chains. Atom spellings are enumerated; a re-spelling outside the enumerated forms is reported as a missing test. "
+      "Trusted: CFG builder, meaning of .any()/.all()/torch.equal/isinstance.",
+      "DESIGN.md section 4, C18")
